@@ -385,6 +385,14 @@ def run_layers(ctx, spec):
             lays = [l.name for l in geo.layerlist[1:]]
             sel = sorted(rng.sample(lays, rng.randint(1, min(3, len(lays))))) if rng.random() < 0.7 else []
             ctx.count('layer_refinements_of_shipped_geometries')
+        elif it % 8 == 5:
+            # a tall stack refined as a whole: the regenerated layer names run far into the name space (in the
+            # two-letter conventions past the name the surface layer itself has)
+            conv = [2, 1, 2, 0][(it // 8) % 4]
+            geo, desc = geos.rectangular(rng, nx=rng.randint(1, 2), ny=1, nz=rng.randint(24 if conv == 2 else 12, 30), convention=conv)
+            lays = [l.name for l in geo.layerlist[1:]]
+            sel = [] if rng.random() < 0.7 else lays[rng.randint(0, 5):]
+            ctx.count('layer_refinements_of_tall_stacks')
         else:
             geo, desc = geos.rectangular(rng, nx=rng.randint(1, 3), ny=rng.randint(1, 3), nz=rng.randint(1, 6), convention=rng.choice([0, 0, 2]))
             if geo.num_layers > 2:
@@ -406,6 +414,7 @@ def run_layers(ctx, spec):
         ok = do_op(ctx, geo, op, case)
         if ok is not False:
             new_layers = [(l.bottom, l.top) for l in geo.layerlist[1:]]
+            ctx.see('layers_after_refinement', '%d:%s' % (geo.convention, min(len(new_layers) // 10 * 10, 100)))
             if len(new_layers) != len(old_layers) + (f - 1) * (len(sel) or len(old_layers)):
                 ctx.violation('layers:count', '%d layers after refining %d of %d by %d' % (len(new_layers), len(sel), len(old_layers), f), case)
             for b, t in new_layers:
